@@ -194,15 +194,16 @@ def run(ctx):
                 if bad:
                     ctx.counterexample('Path.rglob(%r, %s) returns hidden entries %r' % (pat, corr.flag_names(pfl), bad[:4]),
                                        {'pattern': pat, 'flags': corr.flag_names(pfl), 'tree': spec, 'hidden_results': bad[:10]})
-            for wfl in (WM.RECURSIVE, WM.RECURSIVE | WM.SYMLINKS):
+            for wfl in (WM.RECURSIVE, WM.RECURSIVE | WM.SYMLINKS, WM.RECURSIVE | WM.DIRPATHNAME | WM.FILEPATHNAME | WM.GLOBSTAR):
                 if cyc and wfl & WM.SYMLINKS:
                     continue
-                n_t += 1
-                got = [globcommon.os.path.relpath(x, T.root) for x in WM.WcMatch(T.root, '*', flags=wfl).match()]
-                bad = [x for x in got if any(sg.startswith('.') for sg in x.split('/'))]
-                if bad:
-                    ctx.counterexample('WcMatch(\'*\', %s) without HIDDEN returns %r' % ('RECURSIVE|SYMLINKS' if wfl & WM.SYMLINKS else 'RECURSIVE', bad[:4]),
-                                       {'tree': spec, 'hidden_results': bad[:10]})
+                for fpat, xpat in (('*', ''), ('*', 'zz*'), ('*.txt|*', 'sub'), ('**/*' if wfl & WM.FILEPATHNAME else '*', 'nomatch|other')):
+                    n_t += 1
+                    got = [globcommon.os.path.relpath(x, T.root) for x in WM.WcMatch(T.root, fpat, xpat, flags=wfl).match()]
+                    bad = [x for x in got if any(sg.startswith('.') for sg in x.split('/'))]
+                    if bad:
+                        ctx.counterexample('WcMatch(%r, exclude %r, flags %#x) without HIDDEN returns %r' % (fpat, xpat, wfl, bad[:4]),
+                                           {'tree': spec, 'file_pattern': fpat, 'exclude_pattern': xpat, 'flags': wfl, 'hidden_results': bad[:10]})
     ctx.counted('real trees: no hidden entry for patterns without a written dot', n_t, nt_, [{'pattern': '**/*.txt', 'flags': 'GLOBSTAR|FOLLOW'}])
     common.replay_witnesses(ctx, [
         ('C03-star-guard-inside-optional', "globmatch('.a', '*?a') is True (the dot guard of a segment-initial `*` sits inside its optional group)",
